@@ -11,18 +11,67 @@ def configs(tier):
     return L
 
 
+def can_match_nl(auto):
+    return any(s >> 10 & 1 for s in auto.sets)
+
+
+def table_facts(ctx, pairs):
+    """The generated rule_can_match_eol table must flag every rule whose
+    pattern (head or trailing context) can contain a newline; with the '|'
+    action a rule shares the action -- and the flag -- of the rules falling into it."""
+    from .. import engines as E, harness as H
+    for spec, cfg in pairs:
+        if 'lineno' not in spec.tags:
+            continue
+        wd, g = E._prep(ctx, spec, cfg, 'tok', extra_options=E.ALLOC_OPTS)
+        if not g.ok:
+            continue
+        arr = H.table_facts(g)['arrays'].get('yy_rule_can_match_eol')
+        name = 'eoltable_%s_%s' % (spec.name, cfg.name)
+        if arr is None:
+            ctx.record(name, 'skipped', reason='table yy_rule_can_match_eol not found')
+            continue
+        bad = []
+        need = {}
+        for r in spec.rules:
+            if can_match_nl(r.full):
+                need[r.num] = True
+        # '|' chains: the action of rule k also runs for every rule falling into it
+        for r in spec.rules:
+            k = r.num
+            while k <= len(spec.rules) and spec.rules[k - 1].fallthrough:
+                k += 1
+            if need.get(r.num) and k <= len(spec.rules):
+                need[k] = True
+        need[spec.default_rule.num] = True
+        for k in need:
+            if k < len(arr) and not arr[k]:
+                bad.append(k)
+        ctx.record(name, 'ok' if not bad else 'violated', engine='table-fact', entry=spec.name, config=cfg.name,
+                   detail='rules that can match a newline but are not flagged: %s' % bad)
+        if bad:
+            ctx.violation(name, 'rule(s) %s can match a newline but yy_rule_can_match_eol is 0: yylineno would not count it' % bad,
+                          dict(flex_input=g.ltext, flex_args=g.args, table=arr), key=dict(entry=spec.name, config=cfg.name, engine='table-fact', assertion='rule_can_match_eol'))
+
+
 def run(ctx):
     quick = ctx.tier == 'quick'
     specs = [s for s in common.select(ctx, corpus.specs()) if s.tags & {'lineno', 'nolineno'}]
-    pairs = [(s, c) for s in specs for c in configs(ctx.tier) if not compatible(s, c)]
+    cfgs = [c for c in configs(ctx.tier) if not quick or c.name in ('Cem', 'r', 'c99')]
+    pairs = [(s, c) for s in specs for c in cfgs if not compatible(s, c)]
 
     def e1_filter(spec, cfg):
-        if quick and cfg.name not in ('Cem', 'r'):
-            return spec.name in ('ln_basic', 'ln_dot', 'ln_trail')
+        if quick:
+            if cfg.name == 'Cem':
+                return True
+            if cfg.name == 'r':
+                return spec.name in ('ln_basic', 'ln_trail', 'ln_none')
+            return False
         return cfg.name in ('Cem', 'r') or 'e1' in spec.tags
 
     # every first-token job asserts yylineno against the newlines of the consumed text
-    common.tokenization_pairs(ctx, pairs, e1_tag=None, e1_lengths=range(0, 4) if quick else range(0, 6),
+    table_facts(ctx, pairs)
+    common.tokenization_pairs(ctx, pairs, e1_tag=None, e1_lengths=range(0, 3) if quick else range(0, 6),
                               e2_cap=8 if quick else 14, e1_filter=e1_filter,
                               full_e1_lengths=range(0, 4) if quick else range(0, 5),
                               e2_filter=lambda s, c: c.name == 'Cem')
